@@ -110,6 +110,9 @@ macro_rules! sem_exec {
                 self.observe(&mut o);
                 o
             }
+            fn share(&self) -> Option<Box<dyn Exec>> {
+                Some(Box::new($name::<M> { sem: self.sem.clone(), futs: Slots::new(self.futs.len()), rels: Vec::with_capacity(64) }))
+            }
         }
 
         impl<M: RawMutex + 'static> Drop for $name<M> {
